@@ -310,14 +310,29 @@ def gen_formula(rng, depth=3, dots=False, mutate=0.2):
     s += "|".join(w() + pr(p, w) for p in rhs)
     info = (lhs, rhs)
     if rng.random() < mutate:
-        i = rng.randrange(len(s) + 1)
-        s = s[:i] + rng.choice(SOUP) + s[i + rng.choice([0, 0, 1]):]
+        base = s
+        for _ in range(20):
+            i = rng.randrange(len(base) + 1)
+            s = base[:i] + rng.choice(SOUP) + base[i + rng.choice([0, 0, 1]):]
+            if cheap_powers(s):
+                break
+        else:
+            s = base
         info = None
     return s, info
 
 
+def cheap_powers(s):
+    """the cost of `x ** n` is |x|^n by definition of the operator; keep generated exponents small so that neither the implementation
+    nor the model spends minutes on one case"""
+    return all(int(m.group(2)) <= 4 for m in re.finditer(r"(\*\*|\^)\s*([0-9]+)", s))
+
+
 def gen_soup(rng, maxlen=10):
-    return "".join(rng.choice(SOUP) for _ in range(rng.randint(0, maxlen)))
+    while True:
+        s = "".join(rng.choice(SOUP) for _ in range(rng.randint(0, maxlen)))
+        if cheap_powers(s):
+            return s
 
 
 # ====================================================================================================
@@ -389,8 +404,16 @@ def run_impl(s, intercept, flags, avail):
     names = {n for n, b in zip(("twosided", "multipart", "multistage"), flags) if b}
     P = DefaultFormulaParser(include_intercept=intercept, feature_flags=names)
     ctx = {"__formulaic_variables_available__": avail} if avail is not None else {}
+    import signal
+
+    def _alarm(*_a):
+        raise TimeoutError("implementation did not finish within 30 s")
+    old = signal.signal(signal.SIGALRM, _alarm)
+    signal.alarm(30)
     try:
         st = P.get_terms(s, context=ctx)
+    except TimeoutError as e:
+        return "OInternal 5", "timeout", e
     except FormulaParsingError as e:
         return "OReject", "reject", e
     except SyntaxError as e:
@@ -399,6 +422,9 @@ def run_impl(s, intercept, flags, avail):
         return "OInternal 5", "internal:RecursionError", e
     except Exception as e:
         return f"OInternal {ICLS.get(type(e).__name__, 5)}", "internal:" + type(e).__name__, e
+    finally:
+        signal.alarm(0)
+        signal.signal(signal.SIGALRM, old)
     d = st._structure
     if list(d) == ["root"] and isinstance(d["root"], list) and not d["root"]:
         return "ORoot (inl [])", "ok", st       # the empty formula
